@@ -68,6 +68,11 @@ func cuScenarios() []cuScenario {
 				return &Rpc{Id: id, Header: h(), Body: &goatorepo.Body{Data: okBody}, Trailer: &goatorepo.Trailer{}}
 			}, nil)
 		}},
+		{"ok-zero-byte-body", "CU_ok", "", func(t *testing.T, ep *Endpoint, cc *goat.ClientConn) error {
+			return invokeWith(ep, cc, bg, bv(nil), func(id uint64) *Rpc {
+				return &Rpc{Id: id, Header: h(), Body: &goatorepo.Body{}, Trailer: &goatorepo.Trailer{}}
+			}, nil)
+		}},
 		{"ok-explicit-status", "CU_ok", "", func(t *testing.T, ep *Endpoint, cc *goat.ClientConn) error {
 			return invokeWith(ep, cc, bg, bv([]byte("q")), func(id uint64) *Rpc {
 				return &Rpc{Id: id, Header: h(), Status: &goatorepo.ResponseStatus{Code: 0, Message: "OK"}, Body: &goatorepo.Body{Data: okBody}, Trailer: &goatorepo.Trailer{}}
@@ -139,7 +144,7 @@ func cuScenarios() []cuScenario {
 }
 
 // ---- role: client, stream (real stream against a scripted peer) ----
-var csOpNames = []string{"CSendOk", "CSendFail", "CCloseSend", "PMsg", "PMsgRecv", "PBadMeta", "PBadMetaLater", "PTrailerOk", "PTrailerErr", "PReset", "PFail", "Cancel", "Deadline"}
+var csOpNames = []string{"CSendOk", "CSendFail", "CCloseSend", "PMsg", "PMsgRecv", "PBadMeta", "PMsgRecvEmpty", "PTrailerOk", "PTrailerErr", "PReset", "PFail", "Cancel", "Deadline", "CancelWriteFail"}
 
 // runs one op sequence; returns the Coq op list, whether the stream finished and with io.EOF
 func runCsOps(t *testing.T, nh int, ops []int) (hs []*tagStats, coqOps []string, finished, succ bool) {
@@ -180,7 +185,20 @@ func runCsOps(t *testing.T, nh int, ops []int) (hs []*tagStats, coqOps []string,
 				go func() { var m wrapperspb.BytesValue; res <- cs.RecvMsg(&m) }()
 				synctest.Wait()
 				coqOps = append(coqOps, "PMsg", "CRecvOk")
-			case "PBadMeta", "PBadMetaLater":
+			case "PMsgRecvEmpty": // a zero-byte message is a message
+				ep.Deliver(&Rpc{Id: id, Header: h(), Body: &goatorepo.Body{}})
+				synctest.Wait()
+				res := make(chan error, 1)
+				go func() { var m wrapperspb.BytesValue; res <- cs.RecvMsg(&m) }()
+				synctest.Wait()
+				coqOps = append(coqOps, "PMsg", "CRecvOk")
+			case "CancelWriteFail": // the reset written by the teardown fails: still exactly one End
+				ep.FailWrites(errInjected)
+				cancel()
+				synctest.Wait()
+				ep.FailWrites(nil)
+				coqOps = append(coqOps, "PFail")
+			case "PBadMeta":
 				hh := h()
 				hh.Headers = badMeta
 				ep.Deliver(&Rpc{Id: id, Header: hh})
@@ -382,6 +400,10 @@ func TestC20Stats(t *testing.T) {
 		{"handler-plain-error", "(SU_run DecOk RErr)", "", &goatorepo.Body{Data: okBody}, false, &hkind{kind: "plain", msg: "boom"}},
 		{"handler-canceled", "(SU_run DecOk RErr)", "", &goatorepo.Body{Data: okBody}, false, &hkind{kind: "canceled"}},
 		{"handler-eof", "(SU_run DecOk REof)", "server-end-eof-nil", &goatorepo.Body{Data: okBody}, false, &hkind{kind: "eof"}},
+		{"handler-wrapped-eof", "(SU_run DecOk REof)", "server-end-eof-nil", &goatorepo.Body{Data: okBody}, false, &hkind{kind: "eof", wrap: true}},
+		{"handler-wrapped-canceled", "(SU_run DecOk RErr)", "", &goatorepo.Body{Data: okBody}, false, &hkind{kind: "canceled", wrap: true}},
+		{"handler-wrapped-deadline", "(SU_run DecOk RErr)", "", &goatorepo.Body{Data: okBody}, false, &hkind{kind: "deadline", wrap: true}},
+		{"handler-ok-coded-error", "(SU_run DecOk RErr)", "", &goatorepo.Body{Data: okBody}, false, &hkind{kind: "okstatus", msg: "m"}},
 		{"empty-request", "(SU_run DecEmpty RNil)", "", &goatorepo.Body{}, false, nil},
 		{"no-body", "(SU_run DecEmpty RNil)", "", nil, false, nil},
 		{"empty-request-error", "(SU_run DecEmpty RErr)", "", &goatorepo.Body{}, false, &hkind{kind: "status", code: 3, msg: "bad"}},
@@ -507,7 +529,11 @@ func TestC20Stats(t *testing.T) {
 							<-acks
 							break
 						}
-						ep.Deliver(&Rpc{Id: 1, Header: hdr("/verif.Echo/Bidi", "src", "dst"), Body: &goatorepo.Body{Data: okBody}})
+						reqBody := &goatorepo.Body{Data: okBody}
+						if (si+len(coqOps))%2 == 1 {
+							reqBody = &goatorepo.Body{} // a zero-byte message
+						}
+						ep.Deliver(&Rpc{Id: 1, Header: hdr("/verif.Echo/Bidi", "src", "dst"), Body: reqBody})
 						synctest.Wait()
 						cmds <- "recv"
 						<-acks
@@ -544,6 +570,9 @@ func TestC20Stats(t *testing.T) {
 					synctest.Wait()
 				}
 				_ = hsent
+				if si%5 == 4 {
+					ep.FailWrites(errInjected) // the trailer's write fails: OutTrailer and End are emitted all the same
+				}
 				close(cmds)
 				synctest.Wait()
 				ep.FailRead(io.EOF)
@@ -652,6 +681,16 @@ func TestC20E2E(t *testing.T) {
 				stBegin(em, idx)
 				first := idx
 				ch, sh := newStatsSet(nh), newStatsSet(nh)
+				wantMethod := "/verif.Echo/Unary"
+				if mi >= 0 {
+					wantMethod = streams[mi].path
+				}
+				if oc == "server-reset" {
+					wantMethod = "/verif.Echo/Bidi"
+				}
+				for _, h := range append(append([]*tagStats(nil), ch...), sh...) {
+					h.expect = wantMethod
+				}
 				var cexit, sexit string
 				cfin, csucc, ssucc := true, false, false
 				var herr error
